@@ -48,6 +48,61 @@ func runC16(c *Ctx) {
 			cliListing(c, idx, r)
 			return
 		}
+		if idx%12 == 7 && idx >= 12 {
+			// several warriors in one simulator, added and listed in any order: every listing denotes ITS warrior
+			k := r.Range(2, 6)
+			type lw struct {
+				code  []mars.Insn
+				start int
+				h     g.Warrior
+			}
+			var all []*lw
+			s, e := g.NewSimulator(gc)
+			if e != nil {
+				return
+			}
+			listed := 0
+			fail := false
+			listOne := func(i int) {
+				w := all[i]
+				var l string
+				if p, msg := try(func() { l = w.h.LoadCode() }); p {
+					c.Violate("C16:panic:"+panicSite(msg), msg, map[string]interface{}{"config": gc, "warriors": len(all), "listed": i})
+					fail = true
+					return
+				}
+				got, gs, rerr := asm.ReadListing(l, d, m)
+				ok := rerr == nil && len(got) == len(w.code) && gs == w.start
+				for j := 0; ok && j < len(got); j++ {
+					ok = got[j] == w.code[j]
+				}
+				if !ok {
+					c.Violate("C16:listing-of-another-warrior", fmt.Sprintf("%d warriors in one simulator, listed in an order of their own: the listing of warrior %d does not denote it (read error: %v)", len(all), i, rerr),
+						map[string]interface{}{"config": gc, "warrior": coreStr(w.code), "start": w.start, "listing": l, "index": i})
+					fail = true
+				}
+				listed++
+			}
+			for len(all) < k && !fail {
+				code, start := genWarrior(r, int64(r.Intn(numForms)), d, m, maxLen)
+				h, e := s.AddWarrior(&g.WarriorData{Name: fmt.Sprint("w", len(all)), Code: toGCode(code), Start: start})
+				if e != nil {
+					return
+				}
+				all = append(all, &lw{code, start, h})
+				for n := r.Intn(3); n > 0 && !fail; n-- {
+					listOne(r.Intn(len(all)))
+				}
+			}
+			for n := 0; n < 2*k && !fail; n++ {
+				listOne(r.Intn(len(all)))
+			}
+			if !fail {
+				c.Count("listings_of_several_warriors_in_random_order", int64(listed))
+				c.Inc("listings_read")
+			}
+			return
+		}
 		code, start := genWarrior(r, idx, d, m, maxLen)
 		if idx < 6 {
 			code, start = nil, 0 // the empty program (it assembles, and its listing must denote it)
